@@ -587,7 +587,8 @@ func genLinPlan(rt *rapid.T) linPlan {
 			op := linOp{H: rapid.IntRange(0, p.Handles-1).Draw(rt, "h")}
 			switch mode {
 			case "counter":
-				op.K, op.Key = pick(rt, []string{"Incr", "Incr", "Incr", "Get"}, "k"), "ctr"
+				// (a deleted counter starts again at its default: creating it twice at once must not lose one)
+				op.K, op.Key = pick(rt, []string{"Incr", "Incr", "Incr", "Incr", "Get", "Delete"}, "k"), "ctr"
 			case "list":
 				op.K, op.Key = pick(rt, []string{"Update", "Update", "Get"}, "k"), "list"
 			case "subdoc":
